@@ -10,10 +10,12 @@ From Coq Require Import ZArith.
 Open Scope Z_scope.
 
 (* Go `int` is I64: file.d is built for 64-bit targets (checked by the harness: strconv.IntSize) *)
-Inductive ity := I32 | I64 | U64.
+Inductive ity := I8 | I16 | I32 | I64 | U8 | U16 | U32 | U64.
 
-Definition ity_bits (t : ity) : Z := match t with I32 => 32 | I64 => 64 | U64 => 64 end.
-Definition ity_signed (t : ity) : bool := match t with U64 => false | _ => true end.
+Definition ity_bits (t : ity) : Z :=
+  match t with I8 | U8 => 8 | I16 | U16 => 16 | I32 | U32 => 32 | I64 | U64 => 64 end.
+Definition ity_signed (t : ity) : bool :=
+  match t with I8 | I16 | I32 | I64 => true | U8 | U16 | U32 | U64 => false end.
 
 Definition go_min (t : ity) : Z := if ity_signed t then - 2 ^ (ity_bits t - 1) else 0.
 Definition go_max (t : ity) : Z := if ity_signed t then 2 ^ (ity_bits t - 1) - 1 else 2 ^ ity_bits t - 1.
@@ -28,6 +30,7 @@ Definition go_wrap (t : ity) (z : Z) : Z :=
 Definition go_conv (t : ity) (z : Z) : Z := go_wrap t z.                 (* T(x) between integer types *)
 Definition go_add (t : ity) (a b : Z) : Z := go_wrap t (a + b).
 Definition go_sub (t : ity) (a b : Z) : Z := go_wrap t (a - b).
+Definition go_mul (t : ity) (a b : Z) : Z := go_wrap t (a * b).          (* the low bits of the exact product *)
 Definition go_shl (t : ity) (a k : Z) : Z := go_wrap t (Z.shiftl a k).   (* constant k >= 0 *)
 Definition go_shr (t : ity) (a k : Z) : Z := Z.shiftr a k.               (* floor division: arithmetic / logical on the representative *)
 Definition go_and (t : ity) (a b : Z) : Z := Z.land a b.                 (* two's complement of unbounded width agrees on in-range operands *)
